@@ -31,6 +31,7 @@ type World struct {
 	runtimeErr types.Type
 	errorType  types.Type
 	protoReg   map[string]*types.Named
+	protoDesc  map[string]string
 }
 
 func (w *World) info(fn *ssa.Function) *fnInfo {
